@@ -99,9 +99,15 @@ fn spawn(idx: usize, job: &mut dyn FnMut(&mut dyn Write)) -> Running {
         assert_eq!(libc::pipe(fds.as_mut_ptr()), 0);
         std::io::stdout().flush().ok();
         std::io::stderr().flush().ok();
+        let parent = libc::getpid();
         let pid = libc::fork();
         assert!(pid >= 0, "fork failed");
         if pid == 0 {
+            // die with the parent: a killed job must not leave its own case children behind
+            libc::prctl(libc::PR_SET_PDEATHSIG, libc::SIGKILL);
+            if libc::getppid() != parent {
+                libc::_exit(0);
+            }
             libc::close(fds[0]);
             SHM = shm;
             // no core dumps
@@ -221,10 +227,27 @@ pub fn run_jobs(
     out.into_iter().map(|o| o.unwrap()).collect()
 }
 
+/// Watchdog expiries of `isolated()` children in this process (= one job). A hang is never a
+/// violation, but it must not pass silently either: `Report::emit` turns the count into an
+/// inconclusive note (exit 2), and after `MAX_TIMEOUTS` expiries further isolated executions
+/// are skipped so that a systematic hang does not cost hours.
+pub static TIMEOUTS: std::sync::atomic::AtomicU32 = std::sync::atomic::AtomicU32::new(0);
+pub static SKIPPED_AFTER_TIMEOUTS: std::sync::atomic::AtomicU32 = std::sync::atomic::AtomicU32::new(0);
+pub const MAX_TIMEOUTS: u32 = 3;
+
 /// Run a single closure in a forked child.
 pub fn isolated(timeout_s: u64, mut f: impl FnMut(&mut dyn Write)) -> JobOut {
+    use std::sync::atomic::Ordering::Relaxed;
+    if TIMEOUTS.load(Relaxed) >= MAX_TIMEOUTS {
+        SKIPPED_AFTER_TIMEOUTS.fetch_add(1, Relaxed);
+        return JobOut { lines: vec![], end: End::Timeout, progress: String::new() };
+    }
     let mut jobs: Vec<Box<dyn FnMut(&mut dyn Write) + '_>> = vec![Box::new(|w| f(w))];
-    run_jobs(&mut jobs, 1, timeout_s).pop().unwrap()
+    let out = run_jobs(&mut jobs, 1, timeout_s).pop().unwrap();
+    if out.end == End::Timeout {
+        TIMEOUTS.fetch_add(1, Relaxed);
+    }
+    out
 }
 
 // ---------------------------------------------------------------------------
@@ -293,6 +316,14 @@ impl Report {
         self.inconclusive.extend(o.inconclusive);
     }
     pub fn emit(&self, w: &mut dyn Write) {
+        use std::sync::atomic::Ordering::Relaxed;
+        let t = TIMEOUTS.load(Relaxed);
+        if t > 0 && !self.inconclusive.iter().any(|i| i.contains("watchdog")) {
+            let mut me = self.clone();
+            me.inconclusive.push(format!("{t} isolated case execution(s) hit the watchdog (hang or extreme slowness; not counted as violation), {} further executions skipped", SKIPPED_AFTER_TIMEOUTS.load(Relaxed)));
+            let _ = writeln!(w, "{}", json!({"report": me}));
+            return;
+        }
         let _ = writeln!(w, "{}", json!({"report": self}));
     }
 }
@@ -390,6 +421,15 @@ pub struct Meta<'a> {
 
 /// Writes evidence, prints VIOLATION / KNOWN-FINDING lines, returns exit code.
 pub fn conclude(cfg: &Cfg, rep: &Report, meta: Meta, start: Instant) -> i32 {
+    let mut rep_own = rep.clone();
+    {
+        use std::sync::atomic::Ordering::Relaxed;
+        let t = TIMEOUTS.load(Relaxed);
+        if t > 0 {
+            rep_own.inconclusive.push(format!("{t} isolated execution(s) in the main process hit the watchdog, {} skipped afterwards", SKIPPED_AFTER_TIMEOUTS.load(Relaxed)));
+        }
+    }
+    let rep = &rep_own;
     let findings = load_findings();
     let vd = verif_dir();
     let mut new_viols = vec![];
